@@ -6,8 +6,11 @@ import (
 	"context"
 
 	"github.com/deckhouse/deckhouse/pkg/log"
+	klient "github.com/flant/kube-client/client"
 
+	objectpatch "github.com/flant/shell-operator/pkg/kube/object_patch"
 	kubeeventsmanager "github.com/flant/shell-operator/pkg/kube_events_manager"
+	metricstorage "github.com/flant/shell-operator/pkg/metric_storage"
 	schedulemanager "github.com/flant/shell-operator/pkg/schedule_manager"
 	"github.com/flant/shell-operator/pkg/task/queue"
 )
@@ -16,4 +19,35 @@ import (
 // verification harness (properties C03, C17).
 func VerifNewManagerEventsHandler(ctx context.Context, tqs *queue.TaskQueueSet, mgr kubeeventsmanager.KubeEventsManager, smgr schedulemanager.ScheduleManager) *ManagerEventsHandler {
 	return newManagerEventsHandler(ctx, &managerEventsHandlerConfig{tqs: tqs, mgr: mgr, smgr: smgr, logger: log.NewNop()})
+}
+
+// VerifC03Assemble wires a ShellOperator from the real pieces the way Init / AssembleCommonOperator /
+// assembleShellOperator do, without the HTTP and debug servers and without webhooks: metric storages
+// with private registries, a fake kube client, event managers, hook manager loading hooksDir.
+func VerifC03Assemble(ctx context.Context, hooksDir, tempDir string) (*ShellOperator, error) {
+	logger := log.NewNop()
+	op := NewShellOperator(ctx, WithLogger(logger))
+	op.MetricStorage = metricstorage.NewMetricStorage(op.ctx, "verif_c03_", true, logger)
+	op.HookMetricStorage = metricstorage.NewMetricStorage(op.ctx, "verif_c03_hook_", true, logger)
+	op.KubeClient = klient.NewFake(nil)
+	op.ObjectPatcher = objectpatch.NewObjectPatcher(op.KubeClient, logger)
+	op.SetupEventManagers()
+	op.setupHookManagers(hooksDir, tempDir)
+	if err := op.initHookManager(); err != nil {
+		return nil, err
+	}
+	return op, nil
+}
+
+// VerifC03Run performs the steps of Start() that concern the queues, in the same order: main queue
+// bootstrap and start, hook queues, events consumer. The cron of the schedule manager is not started:
+// the harness sends the ticks itself. tune shortens the delays (public fields) of every queue.
+func (op *ShellOperator) VerifC03Run(tune func(q *queue.TaskQueue)) {
+	op.bootstrapMainQueue(op.TaskQueues)
+	op.TaskQueues.StartMain()
+	op.initAndStartHookQueues()
+	if tune != nil {
+		op.TaskQueues.Iterate(func(q *queue.TaskQueue) { tune(q) })
+	}
+	op.ManagerEventsHandler.Start()
 }
